@@ -17,6 +17,9 @@ def c01(ctx):
     o1, _ = ctx.correspond("sv_parse", args) if False else (None, None)
     impl = ctx.impl("sv_parse", args)
     model = ctx.model("svm_parse", args)
+    import lib as _lib
+    step = max(1, len(args) // 60)
+    _lib.kernel_crosscheck(ctx, [("svm_parse", args[i], model[i]) for i in range(0, len(args), step)])
     nd = 0
     for a, x, y in zip(args, impl, model):
         if x != y:
